@@ -8,6 +8,8 @@ open PedVerif.Validate
 #print axioms caller_value_wins
 #print axioms external_only_when_absent
 #print axioms ignore_input_ignores
+#print axioms byName_ok_congr
+#print axioms dispatch_ok_bindDict
 #print axioms dispatch_eq_bindDict
 #print axioms callWith_split_eq
 #print axioms callWith_selfKw_eq
